@@ -61,7 +61,7 @@ pub fn c01() -> Check {
         name: "point-reads",
         probes: Probes { reads: true, ..Default::default() },
         profile: Profile::Shape,
-        weights: OpWeights::base(),
+        weights: OpWeights { switch: 2, ..OpWeights::base() },
         tree_surface_weight: 25,
         quick: (400, 300, 150),
         thorough: (800, 500, 300),
@@ -73,6 +73,7 @@ pub fn c03() -> Check {
     let mut w = OpWeights::base();
     w.scan = 25;
     w.del = 16;
+    w.switch = 2;
     Check::new(
         "C03",
         "exploration",
@@ -97,6 +98,7 @@ pub fn c05() -> Check {
     w.compact = 40;
     w.del = 18;
     w.reopen = 1;
+    w.switch = 1;
     Check::new(
         "C05",
         "exploration",
@@ -150,6 +152,7 @@ pub fn c08() -> Check {
     w.reopen = 6;
     w.compact = 34;
     w.cursor = 4;
+    w.switch = 2;
     Check::new(
         "C08",
         "exploration",
